@@ -209,3 +209,28 @@ def inverse_ops(ops):
         else:
             raise UnknownGate(name)
     return out
+
+
+_SIG = np.array([I2, X, Y, Z])            # index p: 0=I, 1=X, 2=Y, 3=Z
+_P_XZ = [(0, 0), (1, 0), (1, 1), (0, 1)]
+
+
+def all_pauli_expectations(rho_t, m):
+    """{(x, z): Tr(rho P)} for all 4^m Paulis at once (tensor contraction qubit by qubit);
+    rho_t[a_0..a_{m-1}, b_0..b_{m-1}]"""
+    t = rho_t
+    # contract qubit 0's (a, b) pair first; after each step the new Pauli axis is appended at the end
+    for k in range(m):
+        # current axes: a_k..a_{m-1}, b_k..b_{m-1}, p_0..p_{k-1};  a_k is axis 0, b_k is axis (m-k)
+        S = np.transpose(_SIG, (0, 2, 1))       # S[p, a, b] = sigma_p[b, a]
+        t = np.tensordot(t, S, axes=([0, m - k], [1, 2]))
+    t = np.real(t)
+    out = {}
+    for idx in np.ndindex(*t.shape):
+        x = z = 0
+        for q, p in enumerate(idx):
+            bx, bz = _P_XZ[p]
+            x |= bx << q
+            z |= bz << q
+        out[(x, z)] = float(t[idx])
+    return out
